@@ -199,6 +199,19 @@ def fit_int(st, t, ct, from_unsigned_bytes=False):
     n = ct.size
     if ct.is_bool():
         return t
+    if t[0] in ('add', 'sub', 'neg') and d.lo > -INF and d.hi < INF:
+        # the whole range lies in one window of the modulus (e.g. a value known to be negative converted to unsigned:
+        # x in [-128,-1] becomes x + 2^32): the conversion is an exact shift by a multiple of 2^(8n), no information is lost
+        M = 1 << (8 * n)
+        k = (int(d.lo) - lo) // M
+        if k == (int(d.hi) - lo) // M and k != 0:
+            l = lin_of(t)
+            if l is not None:
+                from .terms import term_of_lin
+                l2 = l.add(lin_of(C(k * M)), -1)
+                t2 = term_of_lin(l2)
+                st.env[st.canon(t2)] = Dom(int(d.lo) - k * M, int(d.hi) - k * M)
+                return t2
     u = mk_cat(to_bytes(t, n))
     if t[0] in ('add', 'sub', 'mul', 'div', 'mod', 'neg') and u[0] == 'cat' and all(b == ('byte', t, i) for i, b in enumerate(u[1])):
         # a compound value that may have wrapped: keep it opaque (any value of the type) instead of
@@ -244,14 +257,23 @@ def kill_range(st, o, symkey, c, n):
 
 def store_scalar(st, o, offterm, n, t):
     if o.weak:
+        weak_store(st, o, offterm, n)
         return
     symkey, c = off_key(st, offterm)
     kill_range(st, o, symkey, c, n)
     o.cells[(symkey, c)] = (n, t)
 
 
+def weak_store(st, o, offterm, n):
+    """A store into a summary object (e.g. an already linked list node) is a weak update the cells cannot hold; it is kept as
+    an effect so that rules can ask "does anything write into existing nodes (their link field)?"."""
+    symkey, c = off_key(st, offterm)
+    st.effect(('weak-store', o.id, None if symkey else c, n))
+
+
 def store_bytes(st, o, offterm, bs):
     if o.weak:
+        weak_store(st, o, offterm, len(bs))
         return
     symkey, c = off_key(st, offterm)
     n = len(bs)
